@@ -25,6 +25,7 @@ from .base import DiameterAVP
 from .base import loader
 from .constants import *
 from .exceptions import AVPAttributeValueError
+from .exceptions import AVPParsingError
 from .exceptions import DataTypeError
 from .exceptions import DiameterAvpError
 from .exceptions import DiameterTypeError
@@ -234,7 +235,11 @@ class GroupedType(BaseDataType):
     def __init__(self, data, vendor_id=None):
         if isinstance(data, bytes):
             self._data = data
-            self.avps = DiameterAVP.load(data)
+            try:
+                self.avps = DiameterAVP.load(data)
+            except RecursionError:
+                raise AVPParsingError("invalid bytes stream. Grouped AVPs "\
+                                      "are nested too deeply")
 
         elif isinstance(data, list):
             self._data = b""
